@@ -18,7 +18,7 @@ import (
 )
 
 func init() {
-	register(&Prop{ID: "C30", Module: "V.C30.Check", Gen: c30Gen, Quick: 600, Thorough: 4000, Shard: 60})
+	register(&Prop{ID: "C30", Module: "V.C30.Check", Gen: c30Gen, Quick: 600, Thorough: 4000, Shard: 120})
 }
 
 func c30Recover(c *Case) {
@@ -433,9 +433,6 @@ func c30ColourCases(r *Rng, n int) []Case {
 			c.Input = map[string]any{"colour": s}
 			c.Impl = map[string]any{"valid": valid, "is_gradient": isGrad, "is_theme": isTheme, "svg": svgText, "csscolorparser_accepts_only_safe_stop_colours": hyp}
 			c.Nontrivial = valid || isGrad
-			if valid && c30GradientStopKF(s) {
-				c.KF = append(c.KF, "C30-gradient-stop-unescaped")
-			}
 			if valid && isGrad {
 				c.Class += "-gradient"
 			}
